@@ -2,6 +2,7 @@
   C06 — a failure is persisted and automatically replayed first on the next run.
   (initial set; the byte-level save/load round trip is in RapidProofs/RoundTrip.lean)
 -/
+import RapidModel.Generated.Consts
 import RapidProofs.Shrink
 import RapidModel.Persist
 
@@ -54,5 +55,9 @@ theorem persisted_case_replays (p : Prog) (src : Src) (h : (checkOnce p src TS.f
     checkOnce p (.buf (checkOnce p src TS.fresh).used) TS.fresh = { checkOnce p src TS.fresh with src := .buf [] } := by
   have := checkOnce_replay p src TS.fresh [] h
   simpa using this
+
+/-! ### facts re-read from /repo's source on every run -/
+
+theorem version_source : Rapid.Generated.c_rapidVersion = rapidVersion := by decide
 
 end Rapid.C06
